@@ -152,7 +152,11 @@ class Result:
         self.violations.append((what, replay))
 
     def finish(self):
-        os.makedirs(os.path.join(VERIF, "evidence", "replay", self.prop), exist_ok=True)
+        rdir = os.path.join(VERIF, "evidence", "replay", self.prop)
+        os.makedirs(rdir, exist_ok=True)
+        for f in os.listdir(rdir):
+            if f.startswith("violation_"):
+                os.remove(os.path.join(rdir, f))
         kf = known_devs(self.prop)
         for dev, n in sorted(self.known.items()):
             print("KNOWN-FINDING: property=%s %s [%s; seen in %d traces this run]" % (self.prop, kf[dev]["what"], dev, n))
